@@ -349,6 +349,11 @@ func (mr *memRepo) blobMeta(d digest.Digest, locked bool) (blobMeta, error) {
 
 // BlobCreate is used to create a new blob.
 func (mr *memRepo) BlobCreate(opts ...BlobOpt) (BlobCreator, string, error) {
+	return mr.blobCreate(false, opts...)
+}
+
+// blobCreate is the internal method for creating a blob, the lock is always taken since no caller in the memory store holds it.
+func (mr *memRepo) blobCreate(_ bool, opts ...BlobOpt) (BlobCreator, string, error) {
 	if *mr.conf.Storage.ReadOnly {
 		return nil, "", types.ErrReadOnly
 	}
